@@ -140,6 +140,7 @@ static void load_case(uint32_t P, uint32_t blen, int fix_arg1, uint32_t arg1c) {
   uint8_t isstart[BL];
   for (uint32_t k = 0; k < BL; k++) isstart[k] = (k < blen) && ((k < P && !(k & 1)) || k == P || (k >= P + w && !((k - P - w) & 1)));
   __CPROVER_assert(P + w <= blen, "C10 peg loader: an instruction that does not fit into the bytecode is rejected (wf_peg: room)");
+  __CPROVER_assert(P + w > blen || !((blen - P - w) & 1), "C10 peg loader: a program that ends inside its last instruction (here a lone RULE_NCHAR word) is rejected - does not fit");
   __CPROVER_assert(peg_wf_instr(bc, isstart, P, g_nconst), "C10 peg loader: accepted => the wf_peg clause of this opcode holds (rule operands are instruction starts inside the bytecode, constant operands below num_constants, ...) - the matcher's precondition");
   __CPROVER_assert((peg->has_backref != 0) == (LOAD_OP == RULE_BACKMATCH || LOAD_OP == RULE_GETTAG), "C10 peg loader: has_backref is set iff the program uses back-references (the matcher records tagged captures only then)");
 #ifndef LOAD_REJECT_ONLY
